@@ -300,7 +300,7 @@ def build_props(ctx, props_rel, gen_funcs=()):
     return not problems and len(ctx.discharged) == len(ctx.obligations)
 
 
-HEADER = ('From Coq Require Import QArith List ZArith Bool String Ascii.\n'
+HEADER = ('From Coq Require Import QArith Qabs Qminmax List ZArith Bool String Ascii.\n'
           'Import ListNotations.\n')
 
 
